@@ -10,26 +10,30 @@
 (*                                                                         *)
 (* cell = [ side     : "exporter" | "collector"   (which real endpoint)    *)
 (*          proto    : "tls" | "dtls"                                      *)
-(*          srvCert  : "trusted" | "otherCA" | "selfSigned" | "expired"    *)
-(*                     | "notYetValid" | "wrongSAN" | "noSAN"              *)
+(*          srvCert  : "trusted" | "otherCA" | "selfSigned" | "wrongSAN"   *)
+(*                     | "noSAN"   (chain and names, as the exporter's     *)
+(*                     configured CA and ServerName see the certificate)   *)
+(*          nb, na   : validity period of the server certificate, seconds  *)
+(*                     relative to the handshake: valid iff nb <= 0 <= na  *)
 (*          srvName  : "match" | "unset" | "mismatch"  (exporter's ServerName) *)
 (*          cliCert  : "none" | "trusted" | "otherCA" | "expired"          *)
 (*          cliCA    : BOOLEAN  (collector configured with a client CA)    *)
 (*          peerMax  : 11 | 12 | 13  (highest version the harness peer offers) *)
 (*          plain    : BOOLEAN  (the harness peer speaks plaintext) ]      *)
 (***************************************************************************)
-EXTENDS Integers
+EXTENDS Integers, Sequences
 
-SrvCerts == {"trusted", "otherCA", "selfSigned", "expired", "notYetValid", "wrongSAN", "noSAN"}
+SrvCerts == {"trusted", "otherCA", "selfSigned", "wrongSAN", "noSAN"}
 SrvNames == {"match", "unset", "mismatch"}
 CliCerts == {"none", "trusted", "otherCA", "expired"}
 
-Chains(c)     == c \in {"trusted", "expired", "notYetValid", "wrongSAN", "noSAN"}
-InValidity(c) == c \notin {"expired", "notYetValid"}
+Chains(c)     == c \in {"trusted", "wrongSAN", "noSAN"}
+\* the validity period is judged at the instant of the handshake, with no tolerance either way
+InValidity(cell) == cell.nb <= 0 /\ cell.na >= 0
 \* the trusted certificate carries the DNS name the exporter is configured with AND the IP it dials
 NameMatches(cert, name) == cert = "trusted" /\ name \in {"match", "unset"}
 
-ServerOK(cell) == Chains(cell.srvCert) /\ InValidity(cell.srvCert) /\ NameMatches(cell.srvCert, cell.srvName)
+ServerOK(cell) == Chains(cell.srvCert) /\ InValidity(cell) /\ NameMatches(cell.srvCert, cell.srvName)
 VersionOK(cell) == cell.peerMax >= 12
 ClientOK(cell) == ~cell.cliCA \/ cell.cliCert = "trusted"
 
@@ -41,7 +45,7 @@ CfgOK(cell) == ("cfg" \notin DOMAIN cell) \/ cell.cfg = "ok"
 ExporterEstablishes(cell) ==
   IF cell.plain \/ ~CfgOK(cell) THEN "no"
   ELSE IF cell.proto = "tls" THEN (IF ServerOK(cell) /\ VersionOK(cell) THEN "yes" ELSE "no")
-  ELSE IF ~(Chains(cell.srvCert) /\ InValidity(cell.srvCert)) THEN "no"
+  ELSE IF ~(Chains(cell.srvCert) /\ InValidity(cell)) THEN "no"
   ELSE IF cell.srvName = "unset" THEN "either"
   ELSE IF NameMatches(cell.srvCert, cell.srvName) THEN "yes" ELSE "no"
 
@@ -60,4 +64,25 @@ CellOK(cell, obs) ==
          /\ obs.established /\ cell.proto = "tls" => obs.version >= 12          \* TLS 1.2 or later
          /\ ~obs.established => ~obs.sent                                        \* no fallback: nothing was sent in the clear
     ELSE /\ Agrees(CollectorDelivers(cell), obs.delivered)
+
+---------------------------------------------------------------------------
+(* Histories.  Several exporting processes of one application may talk to  *)
+(* the same long-lived collector endpoint, one after the other, each with  *)
+(* its own trust configuration (CA rotation, per-tenant CAs).  Every       *)
+(* attempt is admitted on its own configuration alone: go-ipfix keeps no   *)
+(* TLS session state across exporting processes (no ClientSessionCache),   *)
+(* so what an earlier process established never vouches for a later one.   *)
+(* sess[s] is the sequence of attempts made against endpoint s.            *)
+VARIABLE sess
+SessInit == sess = << >>
+Attempt(s, cell, est) ==
+  /\ Agrees(ExporterEstablishes(cell), est)                   \* whatever sess[s] holds
+  /\ sess' = [x \in DOMAIN sess \cup {s} |->
+               IF x = s THEN (IF s \in DOMAIN sess THEN sess[s] ELSE << >>) \o << [cell |-> cell, est |-> est] >>
+               ELSE sess[x]]
+\* no established attempt anywhere in a history lacks its own verification
+HistoryFree == \A s \in DOMAIN sess : \A i \in DOMAIN sess[s] :
+                 sess[s][i].est => ExporterEstablishes(sess[s][i].cell) # "no"
+\* histories in which an earlier attempt was admitted and a later one had to be refused (coverage)
+RefusedAfterAdmitted(s) == \E i, j \in DOMAIN sess[s] : i < j /\ sess[s][i].est /\ ~sess[s][j].est
 =============================================================================
